@@ -12,7 +12,7 @@ CLAIM = dict(
          'and logarithmic transforms give a position inside [leftP, rightP) with position + wrap * width == unwrapped position (L2P); log scales refuse '
          'values <= 0. The polyline break at a wrap (Plot._retInterpolateWrapPoints, _filterCrossLineList) is executed symbolically for wraps in -3..3, '
          'all back-up modes: generated points lie on the track edges, X between the two samples, none when both ends are off scale on the same side. '
-         'Whole plots: 1..2 curves on any of 4 tracks in any of 4 modes over a signal that runs up to 50 scale widths off scale are plotted to SVG and every polyline point '
+         'The scale edges map to the track edges. Whole plots: 1..2 curves on any of 11 tracks (full, half, double) in any of 4 modes over a signal that runs up to 50 scale widths off scale are plotted to SVG and every polyline point '
          'is checked against the track of its own curve.',
     note='Trusted: z3 NRA, CrossHair, py2smt; log10 is uninterpreted with the instances log10(a/b) = log10 a - log10 b and injectivity on the two scale '
          'edges. Outside: binary64 rounding in the SMT obligations; the XML-configured (non LIS) plot formats. Whole plots are decided only on the bounded '
@@ -42,13 +42,17 @@ def ob_lin():
         o, init = _mk(ctx, I, PRESCfg.LineTransLin, lP, rP, lL, rL)
         wp = I.call(PRESCfg.LineTransLin.wrapPos, [o, P.SFloat(val)])
         l2p = I.call(PRESCfg.LineTransLin.L2P, [o, P.SFloat(val)])
+        # the unwrapped scale position is anchored at the scale edges: the left value lies on the left track edge, the right value on the right one
+        at_l = I.call(PRESCfg.LineTransLin.L2P, [o, P.SFloat(lL)])
+        at_r = I.call(PRESCfg.LineTransLin.L2P, [o, P.SFloat(rL)])
         w, f = wp.value
         wv, fv, lv = z3.ToReal(ctx.lift_int(w)), ctx.lift_float(f), ctx.lift_float(l2p.value)
         ok_dom = z3.And(lP < rP, lL != rL)
         goal = [z3.Implies(ok_dom, z3.And(init.ok(), wp.ok(), l2p.ok())),
                 z3.Implies(lP >= rP, init.raised('ExceptionLineTransBase')),
                 z3.Implies(ok_dom, z3.And(lP <= fv, fv < rP)),
-                z3.Implies(ok_dom, fv + wv * (rP - lP) == lv)]
+                z3.Implies(ok_dom, fv + wv * (rP - lP) == lv),
+                z3.Implies(ok_dom, z3.And(at_l.ok(), at_r.ok(), ctx.lift_float(at_l.value) == lP, ctx.lift_float(at_r.value) == rP))]
         r = P.decide([], goal, side=ctx.side, names=['lP', 'rP', 'lL', 'rL', 'val'], timeout_s=120)
         r['functions'] = sorted(ctx.encoded)
         return r
@@ -66,11 +70,14 @@ def ob_lin():
             return lL != rL, 'ZeroDivisionError lL=%r rL=%r' % (lL, rL)
         if lP >= rP:
             return True, 'constructor accepted lP=%r >= rP=%r' % (lP, rP)
+        etol = 1e-9 * (abs(rP) + abs(lP) + 1)
+        if abs(t.L2P(lL) - lP) > etol or abs(t.L2P(rL) - rP) > etol:
+            return True, 'LineTransLin(%r,%r,%r,%r): scale edges map to %r and %r, not to the track edges' % (lP, rP, lL, rL, t.L2P(lL), t.L2P(rL))
         w, f = t.wrapPos(val)
         tol = 1e-9 * (abs(rP) + abs(lP) + 1) * (abs(w) + 1)
         ok = lP - tol <= f < rP + tol and abs(f + w * (rP - lP) - t.L2P(val)) <= tol * 10
         return not ok, 'LineTransLin(%r,%r,%r,%r).wrapPos(%r) = (%r, %r), L2P = %r' % (lP, rP, lL, rL, val, w, f, t.L2P(val))
-    return Ob('linear_wrap_in_track', 'smt', 'every real leftP < rightP, leftL != rightL, value', ['util.plot.PRESCfg.LineTransLin.__init__/L2P/wrapPos', 'LineTransBase.__init__'], fn=fn, replay=replay)
+    return Ob('linear_wrap_in_track', 'smt', 'every real leftP < rightP, leftL != rightL (either direction; the scale edges map to the track edges), value', ['util.plot.PRESCfg.LineTransLin.__init__/L2P/wrapPos', 'LineTransBase.__init__'], fn=fn, replay=replay)
 
 
 def ob_log():
@@ -82,15 +89,19 @@ def ob_log():
         o, init = _mk(ctx, I, PRESCfg.LineTransLog10, lP, rP, lL, rL)
         wp = I.call(PRESCfg.LineTransLog10.wrapPos, [o, P.SFloat(val)])
         l2p = I.call(PRESCfg.LineTransLog10.L2P, [o, P.SFloat(val)])
+        at_l = I.call(PRESCfg.LineTransLog10.L2P, [o, P.SFloat(lL)])
+        at_r = I.call(PRESCfg.LineTransLog10.L2P, [o, P.SFloat(rL)])
         L = ctx.uf_log10
-        axioms = [L(rL / lL) == L(rL) - L(lL), L(val / lL) == L(val) - L(lL), (L(rL) == L(lL)) == (rL == lL)]
+        axioms = [L(rL / lL) == L(rL) - L(lL), L(val / lL) == L(val) - L(lL), (L(rL) == L(lL)) == (rL == lL), (L(rL) > L(lL)) == (rL > lL)]
         dom = z3.And(lP < rP, lL > 0, rL > 0, lL != rL)
         w, f = wp.value if wp.value is not None else (0, 0.0)
         wv, fv, lv = z3.ToReal(ctx.lift_int(w)), ctx.lift_float(f), ctx.lift_float(l2p.value)
         goal = [z3.Implies(z3.And(dom, val > 0), z3.And(init.ok(), wp.ok(), l2p.ok())),
                 z3.Implies(z3.And(dom, val <= 0), wp.raised('ExceptionLineTransBaseMath')),
                 z3.Implies(z3.And(dom, val > 0), z3.And(lP <= fv, fv < rP)),
-                z3.Implies(z3.And(dom, val > 0), fv + wv * (rP - lP) == lv)]
+                z3.Implies(z3.And(dom, val > 0), fv + wv * (rP - lP) == lv),
+                # anchored at the scale edges, in either direction (log10 strictly increasing)
+                z3.Implies(dom, z3.And(at_l.ok(), at_r.ok(), ctx.lift_float(at_l.value) == lP, ctx.lift_float(at_r.value) == rP))]
         r = P.decide(axioms, goal, side=ctx.side, names=['lP', 'rP', 'lL', 'rL', 'val'], timeout_s=120)
         r['functions'] = sorted(ctx.encoded)
         return r
@@ -103,6 +114,9 @@ def ob_log():
         if not (lP < rP and lL > 0 and rL > 0 and lL != rL):
             return False, 'outside the domain'
         t = PRESCfg.LineTransLog10(lP, rP, lL, rL)
+        etol = 1e-9 * (abs(rP) + abs(lP) + 1)
+        if abs(t.L2P(lL) - lP) > etol or abs(t.L2P(rL) - rP) > etol:
+            return True, 'LineTransLog10(%r,%r,%r,%r): scale edges map to %r and %r, not to the track edges' % (lP, rP, lL, rL, t.L2P(lL), t.L2P(rL))
         try:
             w, f = t.wrapPos(val)
         except PRESCfg.ExceptionLineTransBaseMath:
@@ -112,7 +126,7 @@ def ob_log():
         tol = 1e-9 * (abs(rP) + abs(lP) + 1) * (abs(w) + 1)
         ok = lP - tol <= f < rP + tol and abs(f + w * (rP - lP) - t.L2P(val)) <= tol * 10
         return not ok, 'LineTransLog10(%r,%r,%r,%r).wrapPos(%r) = (%r, %r), L2P = %r' % (lP, rP, lL, rL, val, w, f, t.L2P(val))
-    return Ob('log10_wrap_in_track', 'smt', 'every real leftP < rightP, positive leftL != rightL, every value (<= 0 must be refused)',
+    return Ob('log10_wrap_in_track', 'smt', 'every real leftP < rightP, positive leftL != rightL (either direction; the scale edges map to the track edges), every value (<= 0 must be refused)',
               ['util.plot.PRESCfg.LineTransLog10.__init__/L2P/wrapPos'], fn=fn, replay=replay)
 
 
@@ -155,10 +169,10 @@ def obligations(tier):
                ['util.plot.Plot.Plot._retInterpolateWrapPoints', 'Plot._filterCrossLineList', 'PRESCfg.LineTransBase.offScale'],
                harness='C19_plot', func='interp_points', timeout=1500, tiers=('thorough',)),
             Ob('svg_curves_inside_own_track', 'ch', 'reference-encoded LIS log pass (25 frames, signal crossing zero, amplitudes 4 / 40 / 400 on a -8..8 linear or 0.25..2048 log scale) '
-               'plotted through PlotReadLIS with a FILM table and a PRES table of 1..2 curves: tracks T1/T2/T3/T23 x modes none/WRAP/SHIF/GRAD per curve, '
+               'plotted through PlotReadLIS with a FILM table and a PRES table of 1..2 curves: tracks T1/T2/T3/T23 (first curve also the six half tracks LHTn/RHTn and T12; track extents from an independent table of the API three-track film) x modes none/WRAP/SHIF/GRAD per curve, '
                'both curves from one output channel or from two; frame X recorded in FEET or in tenth-inches (plot range always in FEET)',
                ['util.plot.Plot.PlotReadLIS.plotLogPassLIS', 'Plot.Plot._plotSingleOutput/_interpolateBackup/_retInterpolateWrapPoints', 'PRESCfg.PresCfgLISRead', 'FILMCfg.FilmCfgLISRead.interpretTrac',
                 'PRESCfg.LineTransLin/LineTransLog10.wrapPos', 'util.plot.SVGWriter', 'LIS.core.LogPass.setFrameSet'],
-               harness='C19_svg', func='svg_curves_in_track', timeout=170 if q else 600, parts=16),
+               harness='C19_svg', func='svg_curves_in_track', timeout=170 if q else 600, parts=44),
             Ob('crossline_filter', 'ch', '0..12 crossing lines, MAX_BACKUP_TRACK_CROSSING_LINES as configured', ['util.plot.Plot.Plot._filterCrossLineList'],
                harness='C19_plot', func='filter_lines', timeout=120 if q else 600)]
